@@ -177,12 +177,89 @@ def costEnvelope (f : Family) (size cost measured : Nat) : Bool :=
   | .value => cost ≤ measured ∧ measured ≤ 2 * cost + 16 * size + 4096
   | _ => cost ≤ measured ∧ measured ≤ 8 * cost + 16 * size + 8192
 
+/-! batch lines: `batch <fam> x.. x.. => batch || m i <status> [| geom | tag k.. c.. late]...` -/
+
+def splitOn2 (t : Tok) (sep : String) : List Tok :=
+  let rec go : Tok → Tok → List Tok → List Tok
+    | [], cur, acc => (cur.reverse :: acc).reverse
+    | x :: xs, cur, acc => if x = sep then go xs [] (cur.reverse :: acc) else go xs (x :: cur) acc
+  go t [] []
+
+def predOf (fam : String) (bs : Bytes) : Pred :=
+  if fam = "wkb" then predWkb bs
+  else if fam = "hex" then predHex (bs.map fun b => Char.ofNat b.toNat)
+  else predJ (decodeJSON bs)
+
+/-- one kept encoding: `tag encerr` or `tag k<hex> c<hex> <late decode>` -/
+def judgeEnc (g : BGeom) (t : Tok) : Option String :=
+  match t with
+  | [_, "encerr"] => some "reencode-unstable encoder-error"
+  | _ :: k :: c :: late =>
+    match hexToBytes (k.drop 1).toString, hexToBytes (c.drop 1).toString with
+    | some kb, some cb =>
+      if !keptIntact kb cb then some "encode-result-aliased kept-bytes-changed-after-later-encode-calls"
+      else match parseRe late with
+        | some r => if reStableLate g r then none else some "reencode-unstable-late"
+        | none => if (late.headD "").startsWith "panic:" then some "not-total:panic-in-late-decode" else some "reencode-unstable-late unparsable"
+    | _, _ => some "reencode-unstable-late unparsable-hex"
+  | _ => some "reencode-unstable-late unparsable"
+
+def judgeMember (fam : String) (inp : String) (seg : Tok) : Option (String × String) :=   -- (kind, why)
+  match hexToBytes (inp.drop 1).toString with
+  | none => some ("DIFF", "unparsable-input")
+  | some bs =>
+    let p := predOf fam bs
+    match splitBar seg with
+    | ("m" :: _ :: st :: _) :: rest =>
+      if st.startsWith "panic:" then some ("SPEC", "not-total:panic " ++ st)
+      else if st = "nilnil" then some ("SPEC", "not-total:nil-nil")
+      else if st.startsWith "err:" then
+        if p.cls == (st.drop 4).toString then none else some ("DIFF", s!"model={p.cls} impl={st}")
+      else if st = "ok" then
+        match rest with
+        | gt :: encs =>
+          match Proto.pGeom 100000 gt with
+          | some (g, _) =>
+            match encs.filterMap (judgeEnc g) with
+            | why :: _ => some ("SPEC", why)
+            | [] =>
+              if encs.isEmpty then some ("SPEC", "reencode-unstable no-encoding")
+              else match p.geom with
+                | some mg => if Geom.beq g mg then none else some ("DIFF", "decoded-geometry-differs-from-model")
+                | none => some ("DIFF", s!"model={p.cls} impl=ok")
+          | none => some ("DIFF", "unparsable-geometry")
+        | [] => some ("DIFF", "unparsable-member")
+      else some ("DIFF", "unparsable-status " ++ st)
+    | _ => some ("DIFF", "unparsable-member")
+
+def judgeBatch (lhs rhs : Tok) : String :=
+  match lhs with
+  | _ :: fam :: inputs =>
+    let cls := "batch-" ++ fam
+    match rhs with
+    | "batch" :: rest =>
+      let segs := (splitOn2 rest "||").drop 1
+      if segs.length != inputs.length then s!"SPEC {cls} not-total:members-missing {segs.length}/{inputs.length}"
+      else
+        let vs := (inputs.zip segs).filterMap fun (i, s) => judgeMember fam i s
+        match vs.find? (·.1 == "SPEC") with
+        | some (_, why) => s!"SPEC {cls} {why}"
+        | none => match vs with
+          | (k, why) :: _ => s!"{k} {cls} {why}"
+          | [] => s!"OK {cls}"
+    | t0 :: _ =>
+      if t0 = "oom" ∨ t0 = "timeout" ∨ t0.startsWith "crash" then s!"SPEC {cls} not-total:{t0}"
+      else s!"DIFF {cls} unparsable-result"
+    | [] => s!"DIFF {cls} empty-result"
+  | _ => "DIFF bad-line unparsable-batch"
+
 def statusName : Status → String
   | .ok => "ok" | .err => "err" | .both => "geometry-and-error" | .neither => "nil-nil" | .panic => "panic"
   | .oom => "out-of-memory" | .crash => "crash" | .timeout => "timeout"
 
 def judgeLine (line : String) : String :=
   let (lhs, rhs) := splitArrow (tokens line)
+  if lhs.head? == some "batch" then judgeBatch lhs rhs else
   match parseCase lhs, parseObs rhs with
   | none, _ => "DIFF bad-line unparsable-input"
   | some c, none => s!"DIFF {c.kind}-bad-result unparsable-result {" ".intercalate (rhs.take 3)}"
